@@ -16,6 +16,7 @@
 From Coq Require Import ZArith List Bool Lia.
 From Alliance Require Import Num KMap Types Monad Model Step Spec Hoare.
 From Alliance.Proofs Require Import Custody.
+From Alliance.Proofs Require TokensNonneg CustodyClosed.
 From Alliance Require Import WitnessLib.
 From Alliance.Witness Require Import F_C01_stranded_alliance_denom.
 Import ListNotations.
@@ -35,6 +36,14 @@ Theorem C01_margin_is_kept : forall d, d <> BOND_DENOM ->
   forall c h s, Inv s -> c <= slack s d -> adm_run d s h -> c <= slack (run s h) d.
 Proof. intros d Hd c h s. exact (custody_margin_kept d Hd c h s). Qed.
 Print Assumptions C01_margin_is_kept.
+
+(* the same without the C03 assumption on DeleteAlliance: no stored asset ever has a negative total
+   (TokensNonneg.v, true since fix 714c18a), so nothing is assumed of the module's own messages other than
+   that a slash callback returning an ERROR is excluded; genesis assets are valid with a non-negative total *)
+Theorem C01_custody_never_short_closed : forall d, d <> BOND_DENOM ->
+  forall h, CustodyClosed.adm0_run d init_state h -> 0 <= slack (run init_state h) d.
+Proof. intros d Hd h. exact (CustodyClosed.custody_never_short_closed d Hd h). Qed.
+Print Assumptions C01_custody_never_short_closed.
 
 (* one step, any operation *)
 Theorem C01_step : forall d, d <> BOND_DENOM -> forall c s o, JC d c s -> adm d s o -> JC d c (fst (step s o)).
@@ -58,6 +67,12 @@ Proof.
   split; [|vm_compute; reflexivity].
   unfold C01_example. cbn [adm_run]. repeat split; cbv [adm]; try exact I; try (unfold ACC_ALLIANCE; lia); try (vm_compute; discriminate);
     try (vm_compute; intro; discriminate); try constructor.
+Qed.
+
+Example C01_nonvacuous_closed : CustodyClosed.adm0_run 1 init_state (C01_example ++ [ODeleteAlliance AUTHORITY 1]).
+Proof.
+  unfold C01_example. cbn [app CustodyClosed.adm0_run]. repeat split; cbv [CustodyClosed.adm0 adm]; try exact I; try (unfold ACC_ALLIANCE; lia); try (vm_compute; discriminate);
+    try (vm_compute; intro; discriminate); try constructor; try (vm_compute; congruence).
 Qed.
 
 (* the exactness half ("exceeding it only by coins third parties sent") is false of the code:
